@@ -31,5 +31,7 @@ SEEDED = [
     ("C09-3", "C09-MEM"),
     ("C09-4", "C09-TMP"),
     ("C09-5", "C09-PATH"),
+    ("C09-6", "C09-SKIP"),
+    ("C09-7", "C09-LABEL"),
 ]
 MUTANTS = list(MUTANTS) + [_P("seed-" + sid, _os.path.join(_SEEDS, sid, "patch.diff"), rule) for sid, rule in SEEDED if _os.path.exists(_os.path.join(_SEEDS, sid, "patch.diff"))]
